@@ -35,10 +35,12 @@ func c17Fixers() []fixer {
 
 // lexView: the token (kind, value) sequence with keyword values case-folded, and the comment texts
 type lexView struct {
-	ok       bool
-	toks     []string
-	kinds    []string
-	comments []string
+	ok              bool
+	toks            []string
+	kinds           []string
+	comments        []string
+	tokLines        []int        // line on which each token starts (not the end marker)
+	insideMultiLine map[int]bool // lines that lie inside a token or comment spanning several lines (first line excluded)
 }
 
 func isStringTok(t models.TokenType) bool {
@@ -81,9 +83,24 @@ func lexOf(s string) lexView {
 		}
 		v.toks = append(v.toks, fmt.Sprintf("%d:%s", int(tk.Token.Type), val))
 		v.kinds = append(v.kinds, kind)
+		if tk.Token.Type != models.TokenTypeEOF {
+			v.tokLines = append(v.tokLines, tk.Start.Line)
+			for ln := tk.Start.Line + 1; ln <= tk.End.Line; ln++ {
+				if v.insideMultiLine == nil {
+					v.insideMultiLine = map[int]bool{}
+				}
+				v.insideMultiLine[ln] = true
+			}
+		}
 	}
 	for _, cm := range t.Comments {
-		v.comments = append(v.comments, cm.Text)
+		v.comments = append(v.comments, strings.TrimSuffix(cm.Text, "\r")) // the CR of a CRLF line end is layout, not comment text
+		for ln := cm.Start.Line + 1; ln <= cm.End.Line; ln++ {
+			if v.insideMultiLine == nil {
+				v.insideMultiLine = map[int]bool{}
+			}
+			v.insideMultiLine[ln] = true
+		}
 	}
 	return v
 }
@@ -94,6 +111,17 @@ func diffShape(a, b lexView) string {
 		return "breaks-lexing"
 	}
 	if strings.Join(a.comments, "\x00") != strings.Join(b.comments, "\x00") {
+		for i, c := range a.comments {
+			if i >= len(b.comments) || b.comments[i] != c {
+				if strings.Contains(c, "\n") {
+					return "comment-multiline"
+				}
+				if i < len(b.comments) && strings.TrimRight(c, " \t") == strings.TrimRight(b.comments[i], " \t") {
+					return "comment-trailing-blanks"
+				}
+				break
+			}
+		}
 		return "comment"
 	}
 	for i := range a.toks {
@@ -183,6 +211,10 @@ var hostileFeatures = map[string][]string{
 	"backtick-spaces":              {"`two  spaces`"},
 	"dollar-quoted":                {"$$ select  x \n\n\n from $$", "$tag$ it's  select $tag$"},
 	"multiline-quoted-identifier":  {"\"multi\nline  ident\""},
+	"comment-opener-in-literal":    {"'src/*.sql'", "'a /* b'", "'x -- y'"},
+	"comment-opener-in-comment":    {"-- the /* hint\n", "-- see */ next /*\n"},
+	"comment-closer-in-literal":    {"'*/'", "'a */ b /* c'"},
+	"semicolon-line-after-comment": {"-- note\n;\n", "-- note\n  ;\n", "/* c */\n;\n"},
 }
 
 func hostileFeatureNames() []string {
@@ -253,6 +285,9 @@ func runC17(c *runCtx) {
 		if hostile {
 			feature = featNames[(i/2)%len(featNames)]
 			text = g.hostile(feature)
+			if g.r.Bool() {
+				text = strings.TrimSuffix(text, "\n") + "\nSELECT aaaaaaaaaa, bbbbbbbbbbbb, cccccccccccc FROM dddddddddddddd WHERE eeeeeeee = 1\n"
+			}
 		}
 		orig := lexOf(text)
 		if i < 2 {
@@ -334,6 +369,40 @@ func runC17(c *runCtx) {
 		// exactness of the layout checks against independent predicates (tame texts only)
 		if !hostile {
 			checkExactness(res, text)
+		} else if orig.ok {
+			// whatever the text contains, an over-long line that carries code is reported, and only over-long lines are
+			code := map[int]bool{}
+			for _, ln := range orig.tokLines {
+				code[ln] = true
+			}
+			got := map[int]bool{}
+			for _, v := range linter.New(whitespace.NewLongLinesRule(40)).LintString(text, "x").Violations {
+				got[v.Location.Line] = true
+			}
+			for li, l := range strings.Split(text, "\n") {
+				long := len([]rune(strings.TrimRight(l, "\r"))) > 41
+				if got[li+1] && !(len(l) > 40) {
+					res.fail("check-inexact:L005:"+feature, fmt.Sprintf("long-line check reports line %d which is not over-long", li+1), map[string]any{"text": text}, nil)
+				}
+				if long && code[li+1] && !orig.insideMultiLine[li+1] && !got[li+1] {
+					res.fail("check-inexact:L005:"+feature, fmt.Sprintf("long-line check misses over-long code line %d", li+1), map[string]any{"text": text}, nil)
+				}
+			}
+		}
+		// the language server's format action: same obligations as the fixers
+		{
+			if f1, ok := lspFormatText(text, i%4 != 0, 2+i%3); ok {
+				res.count("lspfmt|"+text, true)
+				wit := map[string]any{"action": "textDocument/formatting", "text": text}
+				if orig.ok {
+					if shape := diffShape(orig, lexOf(f1)); shape != "" {
+						res.fail("lsp-format-changes-tokens:"+shape, "the language server's format action changes the token sequence / comment texts ("+shape+"; text with "+feature+")", wit, map[string]any{"formatted": f1})
+					}
+				}
+				if f2, ok2 := lspFormatText(f1, i%4 != 0, 2+i%3); ok2 && f2 != f1 {
+					res.fail("lsp-format-not-idempotent", "formatting the formatted text changes it again (text with "+feature+")", wit, map[string]any{"once": f1, "twice": f2})
+				}
+			}
 		}
 	}
 }
